@@ -10,6 +10,8 @@ def _work(job):
     rep = Report(prop, tier, seed)
     t0 = time.time()
     try:
+        from vlib.common import adversarial_warmup
+        adversarial_warmup()
         cmod = importlib.import_module(cmod_name)
         v = Verifier(rep, prop, cmod_name, seed)
         v.verify(cmod.CONTRACTS[index], index, shard)
